@@ -126,6 +126,21 @@ CLAIMED = {
          "contract-based deductive verification (govc WP over go/ssa, z3/cvc5)",
          "Commutativity of two different post-processors with equal class and Order, the order of elements inside an injected slice, and the "
          "goroutine schedules of the scanning phase (C20) are not covered. " + TRUST),
+
+ "C19": ("proof",
+         "TagArg.Parse is verified for an arbitrary tag string and an arbitrary map: the value is the first top-level segment; every later "
+         "segment with a non-empty name yields an entry under the first-letter-normalised name; for each name the LAST segment wins and its "
+         "values are exactly the space-separated items (flag segments get one empty value); no other key changes (loop invariant with "
+         "last-wins); Set/Add/Find/Has all index at the same normalised name, Has is the intersection test, IsRequired is false only for an "
+         "explicit 'false' value; NewProperty allocates the map before parsing. Totality: every slice/index/map-write in these functions and "
+         "in the prop-shorthand handler carries a discharged no-panic obligation for arbitrary strings.",
+         "DESIGN.md section 5 C19",
+         "contract-based deductive verification (govc WP over go/ssa, z3/cvc5) + one bounded stand-in (labelled bounded)",
+         "strings2.Split / IndexSkipBlocks are third-party: trusted contracts (at least one segment; index in range), backed by a BOUNDED "
+         "stand-in that runs the real functions against a reference splitter on all strings up to length 5 (quick) / 7 (thorough) over a "
+         "10-letter alphabet - 'bracketed groups are never split' is checked there for balanced inputs only (the library misbehaves on "
+         "unbalanced ones) and is not counted as proved; strings.Index/ToUpper by A-STR; the text rendered by fmt.Sprintf in the prop "
+         "shorthand is not modelled. " + TRUST),
 }
 
 NOT_APPLICABLE = {
@@ -157,7 +172,7 @@ def main():
             na.append({"property_id": p, "reason": NOT_APPLICABLE.get(p, PENDING_REASON)})
     m = {
         "version": 1,
-        "setup_cmd": "cd /verif/govc && GOFLAGS=-mod=vendor GOPROXY=off GOSUMDB=off GOTOOLCHAIN=local go build -o /verif/bin/govc .",
+        "setup_cmd": "cd /verif/govc && GOFLAGS=-mod=vendor GOPROXY=off GOSUMDB=off GOTOOLCHAIN=local go build -o /verif/bin/govc . && cd /verif/bounded/strings2 && GOFLAGS=-mod=mod GOPROXY=off GOSUMDB=off GOTOOLCHAIN=local go build -o /verif/bin/bounded_strings2 .",
         "hooks": {
             "guard": "verif",
             "enable": "-tags=verif (comment-only contract files */zz_contracts_verif.go; govc loads /repo with this tag)",
